@@ -60,6 +60,24 @@ func issueProj(i *sx.Node, fields string) string {
 	return strings.Join(parts, "|")
 }
 
+// issueKeysSorted: like issueKeys, but the issues under one key are compared as a multiset
+func (v *resView) issueKeysSorted(fields string) string {
+	var b strings.Builder
+	for _, k := range v.issues.List[1:] {
+		key := k.List[0].Str()
+		if key == "$first" {
+			continue
+		}
+		items := []string{}
+		for _, i := range k.List[1:] {
+			items = append(items, issueProj(i, fields))
+		}
+		sort.Strings(items)
+		fmt.Fprintf(&b, "%s=[%s];", key, strings.Join(items, ","))
+	}
+	return b.String()
+}
+
 func (v *resView) issueKeys(withFirst bool, fields string, onlyCodes map[string]bool) string {
 	var b strings.Builder
 	for _, k := range v.issues.List[1:] {
@@ -112,12 +130,21 @@ func (v *resView) project(prop string) string {
 			return "ok " + v.dest.String()
 		}
 		return v.issueKeys(false, "code,path,dtype,msg", nil)
+	case "C09m":
+		if v.noIssues() {
+			return "ok " + v.dest.String()
+		}
+		return v.issueKeysSorted("code,path,dtype,msg")
 	case "C10":
 		return v.issueKeys(true, "path", nil)
 	case "C11":
 		return v.issueKeys(true, "code,dtype,params,msg", nil)
 	case "C12":
 		return v.log.String() + " " + v.issueKeys(false, "code,path", nil)
+	case "C13":
+		return v.issueKeys(false, "path,code,dtype,msg", nil) + " " + v.dest.String()
+	case "C19":
+		return v.issueKeys(true, "path,code,dtype,params,msg", nil) + " " + v.dest.String() + " " + v.log.String()
 	}
 	return ""
 }
